@@ -277,6 +277,8 @@ from props_jsr import REGISTRY as _R2  # noqa: E402
 REGISTRY = {}
 REGISTRY.update(_R1)
 REGISTRY.update(_R2)
+from props_misc import REGISTRY as _R3  # noqa: E402
+REGISTRY.update(_R3)
 
 
 def main(argv):
